@@ -133,6 +133,7 @@ func (e *Exec) instr(f *frame, st *State, ins ssa.Instruction) bool {
 		k := e.value(f, x.Index)
 		if mt, ok := x.X.Type().Underlying().(*types.Map); ok {
 			e.guardMapUse(f, st, v, false, x)
+			e.mapTypeTag(v.T, mt)
 			val, pres := e.mapLookup(st, v.T, k.T, mt)
 			e.assume(implies(st.Reach, implies(pres, app(">", e.mapLen(st, v.T), "0"))))
 			if x.CommaOk {
@@ -213,6 +214,7 @@ func (e *Exec) instr(f *frame, st *State, ins ssa.Instruction) bool {
 		mt := x.Map.Type().Underlying().(*types.Map)
 		e.frameCheckMap(f, st, m.T, x)
 		e.guardMapUse(f, st, m, true, x)
+		e.mapTypeTag(m.T, mt)
 		e.mapUpdate(st, m.T, k.T, v, mt)
 	case *ssa.Range:
 		v := e.value(f, x.X)
@@ -619,6 +621,7 @@ func (e *Exec) execNext(f *frame, st *State, x *ssa.Next) {
 	k := e.S.declare(e.S.freshName(f.prefix+x.Name()+".k"), kty.Sort())
 	okc := e.S.declare(e.S.freshName(f.prefix+x.Name()+".ok"), "Bool")
 	vis := e.get(st, it.visited)
+	e.mapTypeTag(it.m.T, it.mt)
 	val, pres := e.mapLookup(st, it.m.T, k, it.mt)
 	// ok => k is present and not visited; !ok => every present key has been visited
 	e.assume(implies(st.Reach, implies(okc, and(pres, not(app("select", vis, k))))))
